@@ -176,6 +176,26 @@ def re_cross_conj(Ev, Hv, p):
     return A._real(v)
 
 
+def _fresh_solver(c):
+    """Between two configurations of one task: start from an empty hypothesis set.  Every
+    configuration creates its own fresh symbols, so the hypotheses of earlier configurations are
+    irrelevant for later ones; dropping hypotheses can only make proofs harder, never unsound, and
+    keeps the solver state (and the cost per obligation) constant.  Only done while the run has not
+    forked (no path condition to preserve)."""
+    import z3
+
+    from vc.core import Z3_TIMEOUT_MS
+
+    if c.decisions or c.pathcond:
+        return
+    c.solver = z3.Solver()
+    c.solver.set("timeout", Z3_TIMEOUT_MS)
+    c.assumptions = []
+    c._decide_cache.clear()
+    c.uf_apps = {}
+    c.divisors = []
+
+
 def grouped(configs, chunk):
     """Every configuration is a few hundred milliseconds of work but a worker process costs seconds
     to start (jax / fdtdx imports): configurations of one kind are run back to back inside one task,
@@ -200,6 +220,7 @@ def grouped(configs, chunk):
                     inp.scalars.clear()
                     inp.arrays.clear()
                     inp.notes.clear()
+                    _fresh_solver(c)
                     c.prove = pr
                     try:
                         configs[label](c, inp)
